@@ -9,9 +9,11 @@ Dimensions the specification does not have, so every variant must give the same 
   * debug options: default, ENABLE_COMPLEX_ASSERTIONS off (asynq.debug.disable_complex_assertions()), KEEP_DEPENDENCIES on;
   * for flush bodies that finish their own batch (f<s>-<how>): how the body ends afterwards - returns, raises, or
     tries to set its items again (which raises FutureIsAlreadyComputed out of the body).
-The scheduler is never run on these objects; every history runs under an interval-timer watchdog and a hang counts
-as a mismatch."""
+The scheduler is never run on these objects; every history runs under an interval-timer watchdog (CPU time of this
+process, so a loaded machine cannot trip it); a history that trips it is run once more with a 3x budget and counts
+as a mismatch (hang) only if it trips again."""
 import contextlib
+import gc
 import json
 import os
 import signal
@@ -45,17 +47,18 @@ class Hang(BaseException):
     pass
 
 
-HANG_S = 2.0
+HANG_S = 3.0          # CPU seconds without finishing one history (a history normally takes ~0.1 ms)
 hung = [0]
 
 
 def on_alarm(signum, frame):
     hung[0] += 1
-    signal.setitimer(signal.ITIMER_REAL, HANG_S)      # keep interrupting until the history gives up
+    signal.setitimer(signal.ITIMER_VIRTUAL, HANG_S)      # keep interrupting until the history gives up
     raise Hang()
 
 
 MODES = ("default", "noeca", "keepdeps")
+ROTATE = os.environ.get("C11_ROTATE_MODES") == "1"
 ENDINGS = ("ret", "raise", "more")
 
 
@@ -333,19 +336,19 @@ def run_history(kind, body, pre, ops, serial, ending=None):
     return got
 
 
-def guarded(c, serial, mode, ending):
+def guarded(c, serial, mode, ending, budget=HANG_S):
     """One execution of a history under a watchdog; returns (got, diff)."""
     ops = c["h"]
     hung[0] = 0
-    signal.setitimer(signal.ITIMER_REAL, HANG_S)
+    signal.setitimer(signal.ITIMER_VIRTUAL, budget)
     try:
         try:
             with options_mode(mode):
                 got = run_history(c["kind"], c["body"], c.get("pre", 0), ops, serial, ending)
         finally:
-            signal.setitimer(signal.ITIMER_REAL, 0)
+            signal.setitimer(signal.ITIMER_VIRTUAL, 0)
     except Hang:
-        return "hang (no progress for %.0f s)" % HANG_S, [0]
+        return "hang (history did not finish within %.0f CPU seconds)" % budget, [0]
     except BaseException as e:
         return "harness exception %s: %s" % (type(e).__name__, e), [0]
     if hung[0]:
@@ -363,26 +366,45 @@ def same(exp, g):
 
 def main():
     cases = json.load(sys.stdin)
-    signal.signal(signal.SIGALRM, on_alarm)
+    signal.signal(signal.SIGVTALRM, on_alarm)
+    gc.freeze()                      # the loaded cases are not garbage: keep the collector off them
     out = []
     execs = hangs = 0
     for k, c in enumerate(cases):
-        endings = ENDINGS if c["body"].startswith("f") else (None,)
-        for mode in MODES:
+        fin = c["body"].startswith("f")
+        salt = len(c["h"][0]["a"]) + c["h"][-1]["b"] + k
+        for mi, mode in enumerate(MODES):
             bad = None
+            if ROTATE and mi and "variant" not in c and mi != 1 + salt % 2:
+                continue        # thorough tier, deep histories: default options + one other setting per history
+            # a self-finishing body: every ending under the default options, one ending (rotating over the
+            # histories) under each other option setting; a stored replay case names its variant
+            if "variant" in c:
+                if c["variant"][0] != mode:
+                    continue
+                endings = (c["variant"][1] if fin else None,)
+            elif not fin:
+                endings = (None,)
+            elif mode == "default":
+                endings = ENDINGS
+            else:
+                endings = (ENDINGS[(salt + mi) % 3],)
             for ending in endings:
-                if hangs >= 5:
-                    bad = ("not run: 5 histories hung before this one", [0], mode, ending)
+                if hangs >= 3:
+                    bad = ("not run: 3 histories hung before this one", [0], mode, ending)
                     break
                 execs += 1
                 got, diff = guarded(c, k, mode, ending)
+                if diff and (hung[0] or (isinstance(got, str) and got.startswith("hang"))):
+                    execs += 1
+                    got, diff = guarded(c, k, mode, ending, 3 * HANG_S)
                 if diff:
                     if hung[0] or (isinstance(got, str) and got.startswith("hang")):
                         hangs += 1
                     bad = (got, diff, mode, ending)
                     break
             if bad:
-                out.append({"i": k, "got": bad[0], "diff": bad[1], "mode": bad[2], "ending": bad[3] or "-"})
+                out.append({"i": k, "got": bad[0], "diff": bad[1], "mode": bad[2], "ending": bad[3] or "ret"})
                 break
     out.append({"n": len(cases), "execs": execs})
     json.dump(out, real_out)
